@@ -59,7 +59,7 @@ def required_counters(tier):
         "config.permuted": 300,
         "config.keyword": 300,
         "config.revkeyword": 300,
-        "model_crosscheck": 500,
+        "model_crosscheck": 500, "second_call_same_function": 300,
     }
 
 
@@ -134,12 +134,14 @@ def admissible(order, specs):
     return True
 
 
-def run_signature(rec, rng, sig=None, shapes=None, retshape=None, rngkey=None):
+def run_signature(rec, rng, sig=None, shapes=None, retshape=None, rngkey=None, second=None):
     import jaxtyping
 
     if sig is None:
         sig = GS.gen_signature(rng)
         shapes, retshape = GS.gen_values(rng, sig)
+        # a second argument tuple for the SAME functions and annotation objects (other sizes, own verdict)
+        second = GS.gen_values(rng, sig, p_perturb=0.3)
     names = [p[0] for p in sig["params"]]
     specs = {p[0]: p[1] for p in sig["params"]}
     anns = {n: jaxtyping.Float[np.ndarray, specs[n]] for n in names}
@@ -187,6 +189,13 @@ def run_signature(rec, rng, sig=None, shapes=None, retshape=None, rngkey=None):
             orders.append(o)
     chk = checkers()
     seen = {}
+    second_exp = None
+    if second is not None:
+        sh2, ret2 = second
+        p2 = [(M.parse(specs[n]), tuple(sh)) for n, sh in zip(names, sh2)]
+        f2 = p2 + ([(M.parse(sig["ret"]), tuple(ret2))] if sig["ret"] is not None else [])
+        second_exp = (SAT.satisfiable(f2), SAT.satisfiable(p2))
+        vals2 = {n: real.np_array(sh) for n, sh in zip(names, sh2)}
     for oi, order in enumerate(orders):
         for cname, c in chk.items():
             for style in ("new", "old", "dataclass"):
@@ -194,6 +203,9 @@ def run_signature(rec, rng, sig=None, shapes=None, retshape=None, rngkey=None):
                 passings = ("pos", "kw", "rkw") if oi == 0 else (rng.choice(("pos", "kw", "rkw")),)
                 try:
                     fn = make_fn(order, anns, ret_ann, ret_val, style, c)
+                    fn2 = None
+                    if second is not None and style != "dataclass" and ret_ann is not None:
+                        pass
                 except Exception as e:  # noqa
                     rec.violation("decorate", case, f"decorating failed: {type(e).__name__}: {e}", mechanism="decorate-raises")
                     continue
@@ -221,6 +233,17 @@ def run_signature(rec, rng, sig=None, shapes=None, retshape=None, rngkey=None):
                             mechanism=f"{style}-{'accepts-unsat' if got == 'ok' else 'rejects-sat' if got == 'reject' else got}",
                         )
                     seen.setdefault(style == "dataclass", set()).add(got)
+                # same function object, second argument tuple (only where the returned value can be kept
+                # consistent: the generated function returns a fixed array, so functions with a return
+                # annotation are re-called only when the second return shape equals the first)
+                if second is not None and second_exp is not None and (style == "dataclass" or ret_ann is None or list(second[1] or []) == list(retshape or [])):
+                    exp2 = second_exp[1] if style == "dataclass" else second_exp[0]
+                    if exp2 in ("sat", "unsat"):
+                        got2 = call(fn, order, vals2, passings[0])
+                        rec.count("second_call_same_function")
+                        rec.case((sig, second[0], second[1], f"{cname}/{style}/second"), nontrivial=shared)
+                        if got2 != {"sat": "ok", "unsat": "reject"}[exp2]:
+                            rec.violation("sat-oracle", dict(case, cfg=f"{cname}/{style}/second-call", order=order, second=[second[0], second[1]]), f"second call of the same decorated function with shapes {second[0]} ret {second[1]}: oracle {exp2}, real {got2} (first call: shapes {shapes})", mechanism=f"{style}-second-call-{'accepts-unsat' if got2 == 'ok' else 'rejects-sat' if got2 == 'reject' else got2}")
     for k, s in seen.items():
         if len(s) > 1:
             rec.violation("metamorphic", case, f"configurations disagree among themselves: {sorted(s)}", mechanism="configs-disagree")
@@ -240,4 +263,5 @@ def run_shard(rec, seed, shard, tier):
 
 def replay(rec, case):
     warnings.filterwarnings("ignore")
-    run_signature(rec, random.Random(case.get("rngkey") or "r"), sig=case["sig"], shapes=case["shapes"], retshape=case["ret"], rngkey=case.get("rngkey"))
+    sec = case.get("second")
+    run_signature(rec, random.Random(case.get("rngkey") or "r"), sig=case["sig"], shapes=case["shapes"], retshape=case["ret"], rngkey=case.get("rngkey"), second=tuple(sec) if sec else None)
